@@ -711,9 +711,14 @@ class The(ResultQuantifier[T]):
     ) -> Iterable[TypingUnion[T, Dict[TypingUnion[T, SymbolicExpression[T]], T]]]:
         try:
             yield from super()._evaluate__(sources, parent=parent)
-        except LessThanExpectedNumberOfSolutions:
+        except LessThanExpectedNumberOfSolutions as error:
+            if error.expression is not self:
+                # the count of a nested quantifier, not the one of this quantifier
+                raise
             raise NoSolutionFound(self)
-        except GreaterThanExpectedNumberOfSolutions:
+        except GreaterThanExpectedNumberOfSolutions as error:
+            if error.expression is not self:
+                raise
             raise MultipleSolutionFound(self)
 
 
